@@ -44,6 +44,10 @@ def eval_region(facts, body, start, env, stop=None, special=None, depth=0):
                     base = ('deref', base)
                 elif e['p'] == 'index':
                     base = ('index', base, env.get(e['local'], ('local', e['local'])))
+                elif e['p'] == 'constindex' and isinstance(base, tuple) and base[0] == 'bebytes' and not e.get('from_end') and e['offset'] < base[2]:
+                    # byte k of `x.to_be_bytes()` (n bytes, most significant first) is `(x >> 8 * (n - 1 - k)) as u8`
+                    sh = 8 * (base[2] - 1 - e['offset'])
+                    base = ('cast', 'u8', base[3], ('Shr', base[1], ('const', sh)) if sh else base[1])
                 else:
                     base = (e['p'], base)
             return base
@@ -92,6 +96,12 @@ def eval_region(facts, body, start, env, stop=None, special=None, depth=0):
             fnj = t['func']['fn']
             cb = facts.bodies.get(fnj.get('resolved') or fnj['name'])
             dty = body.local_ty(t['dest']['local'])
+            if cb is None and strip_generics(fnj.get('resolved') or fnj['name']) == 'core::num::to_be_bytes' and len(t['args']) == 1:
+                aty = operand_ty(body, t['args'][0])
+                if aty is not None and aty.get('k') == 'int' and not aty.get('signed') and aty.get('bits', 0) in (16, 32, 64):
+                    env[t['dest']['local']] = ('bebytes', op(t['args'][0]), aty['bits'] // 8, aty['s'])
+                    bb = t['target']
+                    continue
             if cb is None and fnj.get('trait') in ('std::convert::From', 'std::convert::Into') and len(t['args']) == 1 and dty.get('k') == 'int':
                 aty = operand_ty(body, t['args'][0])
                 if aty is not None and aty.get('k') == 'int' and not aty.get('signed') and not dty.get('signed') and aty.get('bits', 0) <= dty.get('bits', 0):
